@@ -458,4 +458,24 @@ Section Tie.
     - lia.
     - rewrite G2. lia.
   Qed.
+
+  (* ---------- a whole search() call: model init_search, GENERATED loop, model finish_search ----------
+     init_search / finish_search are the hand model (their source bodies are pinned by digest); everything in between is the
+     generated code.  Whenever the object after init_search is represented by a generated state g (abs g k) whose stop object
+     was built from the call's settings, the run of the generated loop followed by finish_search IS the model's search(): every
+     theorem about `search` (C03 accounting, C12 / C13 / C14 exact stopping, C04 rows, C05 best, ...) speaks about it *)
+  Theorem source_search_is_model_search (s : drv OP) (c : call) (g : gsearch) k g' k' s' :
+    init_search sp clk s c = Ok (abs g k) ->
+    ties g -> stop_wf g -> stop_shape g -> gs_n_init_search g <= 0 -> gs_n_iter g = c_n_iter c -> 0 <= c_n_iter c ->
+    g_Search_search_loop (drv OP) inner_score clk k g (c_n_iter c) = Ok (g', k') ->
+    finish_search sp (abs g' k') = Ok s' ->
+    search sp f clk s c = Ok s'.
+  Proof.
+    intros HI T WF SH NI NN N0 HL HF. unfold search. rewrite HI. cbn [bind].
+    rewrite search_loop_unfold in HL. unfold py_range in HL.
+    pose proof (search_loop_tie (Z.to_nat (c_n_iter c)) 0%nat g k T WF SH NI ltac:(rewrite NN; lia)) as LT.
+    change (Z.of_nat 0) with 0 in LT.
+    destruct (py_for_break loop_body (map Z.of_nat (seq 0 (Z.to_nat (c_n_iter c)))) (g, k)) as [[g1 k1]|e]; cbn [bind] in HL; [|discriminate].
+    inversion HL; subst g1 k1. rewrite LT. cbn [bind]. exact HF.
+  Qed.
 End Tie.
